@@ -55,12 +55,32 @@ Theorem C13_burst_any_interleaving : forall s ks ks', Permutation ks ks' ->
 Proof. exact burst_any_interleaving. Qed.
 Print Assumptions C13_burst_any_interleaving.
 
+(* A repetition of an unanswered request overlapped by other calls ([DupBurst h ks]): wherever the
+   repetition falls among the overlapping calls (after any prefix ks1 of any order of them) it is
+   withheld with the unanswered request's counter, takes no counter and leaves the state alone; so
+   the burst's counters are those of the burst without it.  The runner releases the repetition and the
+   calls together on the real Sender. *)
+Theorem C13_withheld_request_commutes : forall s h c ks1 ks2,
+  find_hash h (reqs s) = Some c ->
+  step (fst (run s (map Other ks1))) (Request h) = (fst (run s (map Other ks1)), [RetCtr c]) /\
+  fst (run (fst (run s (map Other ks1))) (map Other ks2)) = fst (run s (map Other (ks1 ++ ks2))).
+Proof. exact dupburst_any_position. Qed.
+Print Assumptions C13_withheld_request_commutes.
+
+Theorem C13_dupburst_is_burst_plus_withheld : forall s h ks c,
+  find_hash h (reqs s) = Some c ->
+  step s (Request h) = (s, [RetCtr c]) /\
+  step s (DupBurst h ks) = (fst (step s (Burst ks)), RetCtr c :: snd (step s (Burst ks))).
+Proof. exact dupburst_withheld. Qed.
+Print Assumptions C13_dupburst_is_burst_plus_withheld.
+
 (* Non-vacuity: a history that withholds a duplicate, re-enables it by a response,
    and retrieves a notification, with the monitor accepting every step strictly. *)
 Example C13_nonvacuous :
-  let ops := [Request 3; Request 3; Response (Some 1%N); Request 3; Notify 9; Lookup 3; Other 2; Burst [4; 3; 2]%N] in
+  let ops := [Request 3; Request 3; Response (Some 1%N); Request 3; Notify 9; Lookup 3; Other 2; Burst [4; 3; 2]%N; DupBurst 3 [2; 4]%N] in
   map snd (snd (run init ops)) =
     [[Written 1 0 3; RetCtr 1]; [RetCtr 1]; []; [Written 2 0 3; RetCtr 2];
-     [Written 3 1 9; RetCtr 3]; [Found 9]; [Written 4 2 0]; [Written 5 4 0; Written 6 3 0; Written 7 2 0]]%N /\
+     [Written 3 1 9; RetCtr 3]; [Found 9]; [Written 4 2 0]; [Written 5 4 0; Written 6 3 0; Written 7 2 0];
+     [RetCtr 2; Written 8 2 0; Written 9 4 0]]%N /\
   strictly_accepted (judge minit sinit (snd (run init ops))) = true.
 Proof. vm_compute. split; reflexivity. Qed.
